@@ -1,4 +1,4 @@
 #!/bin/bash
 # usage: tools/baseline.sh [repo-dir]  -> runs the pinned baseline suite with the guard OFF, prints the summary line
 d=${1:-/repo}
-cd "$d" && env -u SCINUMTOOLS_VERIF /venv/bin/python -m pytest -q -p no:cacheprovider --timeout=900 --continue-on-collection-errors -W ignore 2>&1 | grep -E "passed|failed|error" | tail -3
+cd "$d" && env -u SCINUMTOOLS_VERIF PYTHONPATH="$d/src" /venv/bin/python -m pytest -q -p no:cacheprovider --timeout=900 --continue-on-collection-errors -W ignore 2>&1 | grep -E "passed|failed|error" | tail -3
